@@ -20,12 +20,15 @@ NKeysAll    == {1, 2}
 KnownsAll   == {"both", "first", "second", "neither"}
 CfgsAll     == {"single", "singlefn", "multi", "any", "nobody"}
 DestOwnsAll == {"P", "S", "F"}
+LatersAll   == AllLaters
 
 
-Emit_ == Done =>
+Emit_ == Final =>
     PrintT(ToJson([m |-> req.m, u |-> req.u, os |-> req.os, osp |-> req.osp, ds |-> req.ds, dsp |-> req.dsp, down |-> req.down, body |-> req.body, entry |-> req.entry, open |-> (applied \cap OpenKinds # {}),
                    style |-> wire.style, cfg |-> rcv.cfg, kv |-> rcv.kv, nk |-> signed.nk, known |-> rcv.known,
-                   tampers |-> applied,
+                   tampers |-> applied, later |-> later,
                    accept |-> out.accept,
+                   \* open records: the most a receiver may accept (the verdict with the open tamperings taken back)
+                   lenient |-> IF applied \cap OpenKinds # {} THEN Verdict(Lenient(wire), rcv.cfg, rcv.kv, rcv.known).accept ELSE out.accept,
                    rep |-> [m |-> out.m, u |-> out.u, o |-> out.o, d |-> out.d, b |-> out.b]]))
 =============================================================================
